@@ -319,6 +319,15 @@ func (g *exGen) Gen(kind string, d int) *Ex {
 			return g.paren(&Ex{K: "bin", Op: g.r.Pick([]string{"+", "*"}), A: g.Gen("i", d-1), B: g.Gen("i", d-1)})
 		}
 	case "f":
+		if g.r.Chance(3) {
+			// the sign of zero: -x and +x are IEEE negation / identity, not 0 - x / 0 + x
+			z := &Ex{K: "name", Text: g.r.Pick([]string{"z0", "nz"})}
+			u := &Ex{K: "un", Op: g.r.Pick([]string{"-", "+", "-"}), A: z}
+			if g.r.Bool() {
+				return g.paren(&Ex{K: "bin", Op: "/", A: &Ex{K: "lit", Op: "float", Text: "1.0", Val: 1.0}, B: g.paren(u)})
+			}
+			return g.paren(u)
+		}
 		if leaf {
 			if g.r.Chance(30) {
 				if n := g.nameOf("f"); n != nil {
